@@ -120,6 +120,7 @@ type runner struct {
 	xchecked      int
 	xdisagree     []string
 	itemUndis     map[[2]int]int
+	itemViols     map[[2]int]int
 }
 
 func verifDir() string { return envOr("QSYM_VERIF", "/verif") }
@@ -150,7 +151,7 @@ func runCheck(args []string) int {
 		return 2
 	}
 	r := &runner{P: P, chk: chk, tier: tier, seed: seed, matched: map[string]int{}, matchedSample: map[string]string{},
-		fnSeen: map[string]bool{}, ranges: map[string][2]int64{}, itemUndis: map[[2]int]int{}}
+		fnSeen: map[string]bool{}, ranges: map[string][2]int64{}, itemUndis: map[[2]int]int{}, itemViols: map[[2]int]int{}}
 	r.cond = sync.NewCond(&r.mu)
 	r.workers, _ = strconv.Atoi(envOr("QSYM_WORKERS", "16"))
 	r.timeoutMs = 10000
@@ -404,10 +405,14 @@ func (r *runner) worker() {
 				}
 			} else {
 				r.unmatched++
-				if r.unmatched <= 12 {
+				// keep a spread of candidates: up to 3 per work item, 80 overall (a benign-looking item must
+				// not crowd out the one where the defect manifests)
+				key := [2]int{vr.H, vr.Item}
+				if r.itemViols[key] < 3 && len(r.viols) < 80 {
+					r.itemViols[key]++
 					r.viols = append(r.viols, vr)
 				}
-				if r.unmatched >= 40 {
+				if r.unmatched >= 400 {
 					r.stop = true
 				}
 			}
@@ -755,6 +760,10 @@ func (r *runner) confirm(n *native) int {
 		if v.Status != "" {
 			continue
 		}
+		if confirmed >= 12 {
+			v.Status = "not replayed (12 violations already confirmed)"
+			continue
+		}
 		h := r.chk.Harnesses[v.H]
 		it := r.items[v.H][v.Item]
 		model := map[string]ModelVal{}
@@ -772,10 +781,13 @@ func (r *runner) confirm(n *native) int {
 		final := base
 		if !ok {
 			// generic-position floats, discrete part unchanged
-			for s := 1; s <= 32 && !ok; s++ {
+			for s := 1; s <= 64 && !ok; s++ {
 				g := modelToReplay(h, it, model, false)
 				g.Check, g.Label, g.Kind, g.Pos, g.Detail, g.Trail = r.chk.ID, v.V.Label, v.V.Kind, v.V.Pos, v.V.Detail, v.V.Trail
 				g.Seed = int(r.seed)*100 + s
+				if s > 32 {
+					g.Seed = -(int(r.seed)*100 + s) // extreme-position stream (values up to +-700)
+				}
 				if try(g) {
 					ok, final = true, g
 				}
